@@ -1,6 +1,8 @@
 package harness
 
 import (
+	"strconv"
+
 	at "github.com/DanielSvub/anytype"
 	"pgregory.net/rapid"
 )
@@ -30,7 +32,7 @@ type C08Case struct {
 	Derived   int        `json:"derived,omitempty"` // >0: every Derived-th nested container is a user-defined derived type
 }
 
-var cloneMutOps = []string{"add", "insert", "replace", "delete", "pop", "clear", "reverse", "sort", "set", "unset", "oclear", "settf", "unsettf"}
+var cloneMutOps = []string{"noop", "add", "insert", "replace", "delete", "pop", "clear", "reverse", "sort", "set", "unset", "oclear", "settf", "unsettf"}
 
 func GenC08(t *rapid.T) *C08Case {
 	cfg := tfTreeCfg()
@@ -152,6 +154,11 @@ func applyCloneMut(root any, n any, m CloneMut) (applied bool) {
 	case at.List:
 		cnt := x.Count()
 		switch m.Op {
+		case "noop":
+			// calls that are documented no-ops: the content must not change, nor anything derived from it
+			x.Delete()
+			x.Add()
+			catch(func() { x.UnsetTF("#" + strconv.Itoa(cnt+3)) })
 		case "add":
 			x.Add(v)
 		case "insert":
@@ -186,6 +193,11 @@ func applyCloneMut(root any, n any, m CloneMut) (applied bool) {
 		return true
 	case at.Object:
 		switch m.Op {
+		case "noop":
+			x.Unset("\x00no-such-key")
+			x.Unset()
+			x.Set()
+			catch(func() { x.UnsetTF(".no-such-key") })
 		case "set":
 			x.Set(m.Key, v)
 		case "unset":
